@@ -27,6 +27,15 @@ def run_gen_half(ctx, info):
             if rng.random() < 0.4:
                 objs = [adef.mk_block("Outer", [pre, badreg], address_offset=4000)]
             d = {"config": adef.mk_config(register_address_type="u16", command_address_type="u16"), "objects": objs}
+        if i % 25 == 13:
+            # an echo command: out field list EXACTLY equal to the in field list, SIZE_BITS_OUT smaller, a field above it
+            # (seed C03-12: a pass that skips the out checks when the two lists are equal)
+            wv = rng.choice([16, 12, 9])
+            okf = lambda: [adef.mk_field("va", "uint", 0, 8)]
+            echo = adef.mk_command("Echo", 60, size_bits_in=16, size_bits_out=8, fields_in=[adef.mk_field("val", "uint", 0, wv)],
+                                   fields_out=[adef.mk_field("val", "uint", 0, wv)], byte_order=rng.choice(["LE", "BE"]))
+            d = {"config": adef.mk_config(register_address_type="u16", command_address_type="u16"),
+                 "objects": [adef.mk_register("First", 0, 8, okf()), echo]}
         # wide fields and sizes up to 128 bits (and a few beyond, which must not be accepted silently as in-bounds)
         if rng.random() < 0.3:
             size = rng.choice([31, 32, 33, 63, 64, 65, 127, 128])
